@@ -230,6 +230,65 @@ def sweep(fx, R):
                                    'OLD %s (or from nothing, for a default-constructed object that is configured afterwards)' % (D, S_, pp(i['e'])[:80], setters[0], S_, D, S_), fx.rel(g['loc']), 'E-STATE')
                     elif used:
                         R.holds('H8', inst, 'derived from %s, which no method re-assigns without it' % S_, fx.rel(g['loc']), 'E-STATE')
+    # ---- H9: a function of its arguments that hands out a reference to a member it has just written: the results of two calls are one object ----------
+    for f in sorted(fns, key=lambda f: f['q']):
+        rt = f.get('ret') or {}
+        if f.get('ctor') or not f.get('cls') or f.get('body') is None or not f.get('params') or not (rt.get('ref') or rt.get('c') == 'ptr' or rt.get('s', '').rstrip().endswith(('&', '*'))):
+            continue
+        aliases = {}
+        for y in walk(f['body']):
+            if isinstance(y, dict) and y.get('k') == 'Decl':
+                for v in y['vars']:
+                    i0 = strip_casts(v.get('init')) if v.get('init') is not None else None
+                    if (v.get('t') or {}).get('ref') and i0 is not None and i0.get('k') == 'Member' and i0.get('field') and i0.get('cls') == f['cls']:
+                        aliases[v['id']] = i0['name']
+        returned = set()
+        for y in walk(f['body']):
+            if isinstance(y, dict) and y.get('k') == 'Return' and y.get('e') is not None:
+                e0 = strip_casts(y['e'])
+                if e0.get('k') == 'Un' and e0.get('op') == '&':
+                    e0 = strip_casts(e0['e'])
+                if e0.get('k') == 'Member' and e0.get('field') and e0.get('cls') == f['cls']:
+                    returned.add(e0['name'])
+                elif e0.get('k') == 'Ref' and e0.get('id') in aliases:
+                    returned.add(aliases[e0['id']])
+        if not returned:
+            continue
+        pids = {p_['id'] for p_ in f['params']}
+        # locals whose value comes from the parameters
+        tainted = set(pids)
+        for _ in range(3):
+            for y in walk(f['body']):
+                if isinstance(y, dict) and y.get('k') == 'Decl':
+                    for v in y['vars']:
+                        if v.get('init') is not None and any(isinstance(z, dict) and z.get('k') == 'Ref' and z.get('id') in tainted for z in walk(v['init'])):
+                            tainted.add(v['id'])
+        written = set()
+        for y in walk(f['body']):
+            if isinstance(y, dict) and ((y.get('k') == 'Bin' and y.get('op') in ('=', '+=', '-=', '*=', '/=')) or (y.get('k') == 'Op' and y.get('op') in ('=', '+=', '-=', '*=', '/=') and len(y.get('args', [])) == 2)):
+                l_, r_ = (y['l'], y['r']) if y.get('k') == 'Bin' else (y['args'][0], y['args'][1])
+                tgt = None
+                bm = base_member(l_)
+                if bm is not None and bm.get('cls') == f['cls']:
+                    tgt = bm['name']
+                else:
+                    l0 = strip_casts(l_)
+                    for _ in range(4):
+                        if l0 is None:
+                            break
+                        if l0.get('k') == 'Ref' and l0.get('id') in aliases:
+                            tgt = aliases[l0['id']]
+                            break
+                        l0 = strip_casts(l0['args'][0]) if l0.get('k') == 'Op' and l0.get('args') else strip_casts(l0.get('obj')) if l0.get('k') == 'MCall' else None
+                if tgt in returned and any(isinstance(z, dict) and z.get('k') == 'Ref' and z.get('id') in tainted for z in walk(r_)):
+                    written.add(tgt)
+        inst = '%s:returns-member-buffer' % f['q']
+        if written:
+            R.violated('H9', inst, '%s() computes its result from its arguments into the member `%s` and returns a REFERENCE to it: the results of two calls on one object are the same object, so a result a caller '
+                       'still holds (bound to a const reference, or both operands of one expression such as f(a) - f(b)) silently becomes the result of the later call - the value obtained for an input '
+                       'is not a function of that input' % (f['name'], sorted(written)[0]), fx.rel(f['loc']), 'E-STATE')
+        else:
+            R.holds('H9', inst, 'returns a reference to a member it does not compute from its arguments in this call', fx.rel(f['loc']), 'E-STATE')
     # ---- H7: a member used as the accumulator of a loop without being reset in the same call ---------------------------------------------
     RESET_METHODS = ('setZero', 'setConstant', 'fill', 'clear', 'setIdentity', 'setOnes', 'assign', 'resize')
     for f in sorted(fns, key=lambda f: f['q']):
